@@ -37,7 +37,7 @@ LEVEL_NOTE = ("Trusted: transport model, virtual clock.  Requests after a transp
 TECHNIQUE = "deterministic simulation of request histories with scripted per-request fault sequences"
 
 TYPES = ["ok", "drops_ok", "exhaust", "drops_exc", "senderr", "icmp", "rst", "fin", "refused", "drops_sockerr",
-         "stray_frag", "senderr_all", "garbage_ok", "unreach", "drops_unreach", "garbage2", "drops_frag", "lonefrag_all"]
+         "stray_frag", "senderr_all", "garbage_ok", "unreach", "drops_unreach", "garbage2", "drops_frag", "lonefrag_all", "garbage_silent", "slow_connect"]
 SETTINGS = [(0.5, 1), (1.0, 3), (0.25, 2)]
 SWEEP_LEN = {"quick": 2, "thorough": 3}
 N_RANDOM = {"quick": 25_000, "thorough": 1_000_000}
@@ -50,7 +50,7 @@ _SPACE = {}
 
 def _types_for(tr):
     if tr == "udp":
-        return [t for t in TYPES if t not in ("rst", "fin", "refused", "unreach", "drops_unreach")]
+        return [t for t in TYPES if t not in ("rst", "fin", "refused", "unreach", "drops_unreach", "slow_connect")]
     return [t for t in TYPES if t not in ("icmp", "drops_sockerr")]
 
 
@@ -119,8 +119,10 @@ def _mkreq(rnd, typ, tau, r, tr, think=None, newloop=False):
         q["code"] = rnd.choice([1, 2, 3, 4, 6, 77])
     if typ in ("senderr", "icmp", "senderr_all"):
         q["errno"] = 111  # ECONNREFUSED: the one error the library maps itself; other errnos are C09's subject
-    if typ in ("icmp", "rst", "fin", "lonefrag_all"):
+    if typ in ("icmp", "rst", "fin", "lonefrag_all", "garbage_silent"):
         q["d"] = rnd.choice([DEFAULT_LATENCY, tau / 2, tau - EPS])
+    if typ == "slow_connect":
+        q["d"] = min(4.5, rnd.choice([tau + EPS, 2 * tau, 4 * tau]))   # below the 5 s the library waits for a connection
     return q
 
 
@@ -234,6 +236,15 @@ def _script(q, tau, r, tr):
             {"tx": k + 1, "outcome": "result"}
     if t == "exhaust":
         return [], drop, [], {"tx": r + 1, "outcome": "failed"}
+    if t == "garbage_silent":
+        # a stray datagram/segment that is not an answer arrives during the first wait, nothing else ever does: the
+        # request stays within its transmissions AND within (retries + 1) x timeout
+        return [{"k": "garbage", "n": 11, "seed": 9, "d": q.get("d", tau / 4)}], drop, [], \
+            {"tx_max": r + 1, "outcome": "failed", "t_max": (r + 1) * tau}
+    if t == "slow_connect":
+        # TCP: establishing the connection takes longer than the response timeout (but less than the 5 s the library
+        # allows for it); the peer then stays silent: the connection time is not charged to the retry budget
+        return [], drop, [{"k": "ok", "d": min(4.5, q.get("d", 2 * tau))}], {"tx": r + 1, "outcome": "failed", "nospacing": True}
     if t == "lonefrag_all":
         # every transmission is answered by the first piece of the answer only; the rest never comes
         return [], {"k": "lonefrag", "s": 10 if tr == "tcp" else 6, "d1": q.get("d", DEFAULT_LATENCY)}, [], \
@@ -328,6 +339,10 @@ def check_group(violations, txs, tau, r, tr, t_end, outcome, exp, after, what):
     """txs: transmissions of one request; exp: {"tx": n, "outcome": o}"""
     n = len(txs)
     if "tx_max" in exp:
+        if exp.get("t_max") is not None and t_end is not None and txs and t_end - txs[0]["t"] > exp["t_max"] + 1e-9:
+            violations.append(viol(f"C05:end:{tr}:after={after}",
+                                   f"{what}: failure reported {t_end - txs[0]['t']} after the first transmission, the "
+                                   f"budget is (retries + 1) x timeout = {exp['t_max']}"))
         if n > exp["tx_max"]:
             violations.append(viol(f"C05:budget:{tr}:after={after}",
                                    f"{what}: {n} transmissions, at most {exp['tx_max']} allowed (retries={r})"))
